@@ -346,7 +346,7 @@ func check(w wit) (res result) {
 	if doc == nil {
 		doc = []byte{}
 	}
-	r := mx.Run(`<stdin> -> foreach v { out "<$v>" }`, &mx.Opt{Stdin: doc, StdinType: w.Type})
+	r := g3util.Run(`<stdin> -> foreach v { out "<$v>" }`, &mx.Opt{Stdin: doc, StdinType: w.Type})
 	res.observed = g3util.Clip(r.Stdout, 200)
 	if cl, d := g3util.Universal(r); cl != "" {
 		label(cl)
@@ -395,7 +395,11 @@ func minimise(w wit, res result) (wit, result) {
 		if isFiller(w.List[i]) {
 			continue
 		}
-		for _, f := range fillers {
+		for _, t := range treat(w.Type) {
+			if !contains(t.levels, w.Level) {
+				continue
+			}
+			f := t.filler
 			cand := w
 			cand.List = append([]string{}, w.List...)
 			cand.List[i] = f
@@ -406,6 +410,15 @@ func minimise(w wit, res result) (wit, result) {
 		}
 	}
 	return w, res
+}
+
+func contains(l []string, x string) bool {
+	for _, e := range l {
+		if e == x {
+			return true
+		}
+	}
+	return false
 }
 
 func replay(c *vlib.Ctx, witness string) {
